@@ -115,12 +115,84 @@ class Builder:
             os.replace(tmp, path)
         return path
 
+    # ---- C16: wipe obligations regenerated from the goto symbol tables -------
+    C16_CLOSURE = {
+        "polyseed_create": ["polyseed_create", "polyseed_data_to_poly", "gf_poly_encode", "gf_poly_eval", "gf_elem_mul2",
+                            "birthday_encode", "make_features", "polyseed_features_supported"],
+        "polyseed_encode": ["polyseed_encode", "polyseed_data_to_poly"],
+        "polyseed_decode": ["polyseed_decode", "gf_poly_check", "gf_poly_eval", "gf_elem_mul2", "polyseed_poly_to_data",
+                            "polyseed_features_supported", "polyseed_free"],
+        "polyseed_decode_explicit": ["polyseed_decode_explicit", "gf_poly_check", "gf_poly_eval", "gf_elem_mul2",
+                                     "polyseed_poly_to_data", "polyseed_features_supported", "polyseed_free"],
+        "polyseed_load": ["polyseed_load", "polyseed_data_load", "load16", "polyseed_data_to_poly", "gf_poly_check",
+                          "gf_poly_eval", "gf_elem_mul2", "polyseed_features_supported", "polyseed_free"],
+        "polyseed_crypt": ["polyseed_crypt", "utf8_nfkd_lazy", "polyseed_data_to_poly", "gf_poly_encode", "gf_poly_eval",
+                           "gf_elem_mul2"],
+        "polyseed_keygen": ["polyseed_keygen", "store32"],
+        "polyseed_store": ["polyseed_store", "polyseed_data_store", "store16"],
+        "polyseed_free": ["polyseed_free"],
+        "polyseed_phrase_decode": ["polyseed_phrase_decode", "get_comparer"],
+        "polyseed_phrase_decode_explicit": ["polyseed_phrase_decode_explicit", "get_comparer"],
+    }
+    # public data only: the KDF salts (tag, coin, birthday, features) -- DESIGN.md C16
+    C16_ALLOW = {("polyseed_keygen", "salt"), ("polyseed_crypt", "salt")}
+
+    def c16_header(self, cfg):
+        """header with, per API function, the sizes of the automatic aggregates
+        (arrays/structs) declared in it and in the library functions it runs --
+        each must be wiped as a whole object through the injected memzero"""
+        path = os.path.join(self.cfg_dir(cfg), "c16_gen.h")
+        with self.lock:
+            if os.path.exists(path):
+                return path
+        autos = {}
+        listing = []
+        for tu in ("polyseed", "lang", "gf", "storage", "features", "dependency"):
+            obj = self.real_tu(cfg, tu)
+            r = sh(["goto-instrument", "--show-symbol-table", "--json-ui", obj])
+            try:
+                data = json.loads(r.stdout)
+            except Exception:
+                raise BuildError("cannot read the symbol table of %s" % tu)
+            st = {}
+            for it in data:
+                if isinstance(it, dict) and "symbolTable" in it:
+                    st = it["symbolTable"]
+            for name, sym in st.items():
+                loc = sym.get("location", {}) or {}
+                if "/src/" not in loc.get("file", "") and "/include/" not in loc.get("file", ""):
+                    continue
+                if sym.get("isType") or sym.get("isParameter") or sym.get("isStaticLifetime"):
+                    continue
+                if sym.get("type", {}).get("id") not in ("array", "struct_tag", "struct", "union_tag", "union"):
+                    continue
+                fn = loc.get("function", "")
+                base = sym.get("baseName", "")
+                if (fn, base) in self.C16_ALLOW:
+                    continue
+                ctype = re.sub(r"\[(\d+)l\]", r"[\1]", sym.get("prettyType", ""))
+                ctype = ctype.replace("const ", "")
+                autos.setdefault(fn, {})[name] = ctype
+        with open(path + ".tmp", "w") as f:
+            f.write("/* generated from the goto symbol tables of the current tree: automatic aggregates per API function */\n")
+            for api, closure in self.C16_CLOSURE.items():
+                ents = []
+                for fn in closure:
+                    for name, ctype in sorted(autos.get(fn, {}).items()):
+                        ents.append((name, ctype))
+                listing.append((api, ents))
+                f.write("#define C16_N_%s %d\n" % (api, len(ents)))
+                f.write("#define C16_OBL_%s { %s }\n" % (api, ", ".join("sizeof(%s) /* %s */" % (c, n) for n, c in ents) if ents else "0"))
+        os.replace(path + ".tmp", path)
+        self.c16_listing = listing
+        return path
+
     def harness_obj(self, cfg, src, defines, tag):
         out = os.path.join(self.cfg_dir(cfg), "h_" + tag + ".o")
         flags = ["-fsigned-char" if cfg[0] == "s" else "-funsigned-char"]
         cmd = ["goto-cc", "-c", "-I" + REPO + "/include", "-iquote", REPO + "/src",
                "-I" + VERIF + "/spec", "-I" + VERIF + "/harness", "-I" + VERIF + "/stubs",
-               "-I" + VERIF + "/golden", "-I" + self.workdir,
+               "-I" + VERIF + "/golden", "-I" + self.workdir, "-I" + self.cfg_dir(cfg),
                "-DPOLYSEED_STATIC", "-std=c11"] + flags + ["-D" + d for d in defines] + \
               [src, "-o", out]
         r = sh(cmd)
